@@ -21,9 +21,11 @@ import (
 	"io"
 	"net/http"
 	"strings"
+	"sync/atomic"
 	"testing"
 	"time"
 
+	"github.com/pquerna/cachecontrol"
 	"pgregory.net/rapid"
 	"verif.local/h"
 	"verif.local/h/c19x"
@@ -146,6 +148,14 @@ func c19CacheWalk(c *responseCache) c19CacheShape {
 	return s
 }
 
+var c19CacheHangObserved atomic.Bool
+
+// c19CacheWouldStore tells whether the transport will put this answer in the cache (the decision cacheResponse takes).
+func c19CacheWouldStore(req *http.Request, resp *http.Response) bool {
+	reasons, expiration, err := cachecontrol.CachableResponse(req, resp, cachecontrol.Options{PrivateCache: false})
+	return err == nil && len(reasons) == 0 && !expiration.IsZero()
+}
+
 func c19CacheRun(x *h.Ctx, c c19CacheCase) {
 	if len(c.Steps) > 16 || c.Max < 0 || c.Max > 4096 {
 		return
@@ -190,7 +200,9 @@ func c19CacheRun(x *h.Ctx, c c19CacheCase) {
 		tr.cache.mux.Lock()
 		unpoppable := tr.cache.currentSizeBytes - shape.reachableBytes
 		tr.cache.mux.Unlock()
-		spins := size <= c.Max && unpoppable+size >= c.Max // even with every list entry popped the loop condition holds
+		// even with every list entry popped the loop condition `counter+len >= max` of the unfixed code still holds: such a request is
+		// run with a watchdog (with the loop fixed it simply returns: class watchdog-run:returned)
+		spins := size <= c.Max && unpoppable+size >= c.Max
 
 		calls := remote.calls
 		var resp *http.Response
@@ -198,6 +210,16 @@ func c19CacheRun(x *h.Ctx, c c19CacheCase) {
 		run := func() {
 			ok := c19x.Guard(x, func() { resp, err = tr.RoundTrip(req) })
 			done <- ok
+		}
+		if spins && c19CacheHangObserved.Load() && s.Method == http.MethodGet && c19CacheWouldStore(req, remote.next) && tr.cache.get(req) == nil {
+			// A request of exactly this kind was already observed not to return in this process (a goroutine is still spinning
+			// in insert()). While the search minimises the case, do not leak one more spinning goroutine per attempt: the
+			// condition is exact (answer gets cached, nothing left to pop, loop condition holds). A replay is a fresh process
+			// and always observes the hang itself.
+			x.NonTrivial()
+			x.Violate("hang:http/client.(*responseCache).insert", "step %d: RoundTrip would not return (same condition as the hang observed earlier in this process): insert() loops with nothing left to pop "+
+				"(max=%d, response=%d bytes, size counter=%d of which %d bytes are in the list)", i, c.Max, size, unpoppable+shape.reachableBytes, shape.reachableBytes)
+			return
 		}
 		if spins {
 			// run with a watchdog: if the answer is cached, RoundTrip is predicted not to return
@@ -207,8 +229,9 @@ func c19CacheRun(x *h.Ctx, c c19CacheCase) {
 				if !ok {
 					return
 				}
-				x.Class("predicted-spin:not-cached")
+				x.Class("watchdog-run:returned")
 			case <-time.After(2 * time.Second):
+				c19CacheHangObserved.Store(true)
 				x.NonTrivial()
 				x.Violate("hang:http/client.(*responseCache).insert", "step %d: RoundTrip does not return: insert() loops `for currentSizeBytes+len >= maxBytes { pop() }` with nothing left to pop "+
 					"(max=%d, response=%d bytes, size counter=%d of which %d bytes are in the list); the cache mutex stays locked, so every later GET of the node blocks too",
@@ -240,7 +263,8 @@ func c19CacheRun(x *h.Ctx, c c19CacheCase) {
 		if after.indexed > shape.indexed || (served == "remote" && after.reachable > shape.reachable) {
 			cached = "cached"
 		}
-		x.Classf("step:%s:%s:size=%s:cache=%s", served, cached, s.Size, strings.SplitN(s.Cache, "=", 2)[0])
+		x.Classf("step:served-by-%s:%s:size=%s", served, cached, s.Size)
+		x.Classf("recipe=%s:%s", strings.SplitN(s.Cache, "=", 2)[0], cached)
 		// structural invariants: classes only
 		tr.cache.mux.Lock()
 		counter := tr.cache.currentSizeBytes
